@@ -70,6 +70,29 @@ Theorem c11_query_exact : forall f recs err r chk s e,
 Proof. exact query_exact. Qed.
 Print Assumptions c11_query_exact.
 
+(* The same with the weakest side conditions of the repaired reader (7f92eec, 2873940: a CR is
+   skipped only at the start of a line, '>' ends the sequence only at the start of a line or at
+   the seek position; every other CR / '>' is data): no non-blank sequence line of the record
+   starts with a CR ([heads_ok], implied by "B has no CR": heads_ok_of_no_cr), and the base at
+   the start of the region is neither CR nor '>'.  Bases may otherwise contain CR and '>'. *)
+Theorem c11_query_exact_general : forall f recs err r chk s e,
+  index_file f = (recs, err) -> In r recs ->
+  exists body, record_lines f r body /\
+    let B := naive_bases body in
+    let st := match s with Some p => p | None => 1 end in
+    let en := match e with Some p => p | None => usize_max end in
+    heads_ok body ->
+    nth (N.to_nat (st - 1)) B 0 <> CR -> nth (N.to_nat (st - 1)) B 0 <> GT ->
+    1 <= st -> st <= f_len r -> st <= en ->
+    query_record chk f r s e
+    = QOk (firstn (N.to_nat (en - st + 1)) (skipn (N.to_nat (st - 1)) B)).
+Proof. exact query_exact_gen. Qed.
+Print Assumptions c11_query_exact_general.
+
+Theorem c11_heads_ok_of_no_cr : forall ls, ~ In CR (naive_bases ls) -> heads_ok ls.
+Proof. exact heads_ok_of_no_cr. Qed.
+Print Assumptions c11_heads_ok_of_no_cr.
+
 (* The statement cannot be extended to st > length for the pinned code: known finding
    fasta-query-start-beyond-length.  On ">a\nACGT\n>b\nTTTT\n" the query a:6-7 returns "bT". *)
 Definition c11_query_clipped_full_statement : Prop :=
@@ -117,4 +140,10 @@ Proof. vm_compute. repeat split. Qed.
 
 Example c11_example_ragged :   (* ">a\nACGT\nACG\nACGT\n" *)
   index_file [62;97;10; 65;67;71;84;10; 65;67;71;10; 65;67;71;84;10] = ([], Some (EInvalidLineBases 3 4)).
+Proof. vm_compute. reflexivity. Qed.
+
+(* ">a\nAC\rG>T\nAC\n": a CR and a '>' inside a sequence line are bases *)
+Example c11_example_cr_gt_inside :
+  index_and_query [62;97;10; 65;67;13;71;62;84;10; 65;67;10] [97] (Some 2) (Some 7)
+  = QOk [67;13;71;62;84;65].
 Proof. vm_compute. reflexivity. Qed.
